@@ -42,6 +42,8 @@ func runC19(c *Ctx) {
 	c19Small(c)
 	// an aliased import of the user's file keeps a unique alias (C17/alias-unique)
 	c17AliasUnique(c)
+	// what the template emits itself is not reported to the user as code about to be deleted (C18)
+	c18EmittedDeclsMarked(c)
 }
 
 func isCopiedLookup(v ssa.Value) bool {
@@ -150,7 +152,7 @@ func c19Remaining(c *Ctx) {
 }
 
 func c19CopiedWriters(c *Ctx) {
-	c.R.Rule("copied-writers", "Rewriter.copied is updated only in GetPrevDecl and MarkStructCopied; GetPrevDecl marks the declaration it returns", 3)
+	c.R.Rule("copied-writers", "Rewriter.copied is updated only in GetPrevDecl, MarkStructCopied and MarkEmptyStructCopied (the latter only for a struct without fields); GetPrevDecl marks the declaration it returns", 3)
 	n := 0
 	for _, fn := range c.W.FuncsIn(func(p string) bool { return p == pkgRewrite || p == pkgResolvergen }) {
 		for _, b := range fn.Blocks {
@@ -165,7 +167,19 @@ func c19CopiedWriters(c *Ctx) {
 				}
 				n++
 				top := topFn(fn).Name()
-				c.R.Check(top == "GetPrevDecl" || top == "MarkStructCopied", top+"/writes-copied", c.ipos(mu), "reviewed writer of the copied set", "an additional writer of the copied set: declarations it marks are silently dropped from the 'remaining source' block")
+				reviewed := top == "GetPrevDecl" || top == "MarkStructCopied"
+				if top == "MarkEmptyStructCopied" {
+					// reviewed with a side condition checked here: it marks only a struct type without fields (what the template
+					// re-emits verbatim) — the mark is taken on the NumFields() == 0 edge
+					for _, f := range an.Facts(mu) {
+						if call, isCall := f.X.(*ssa.Call); isCall && f.Op == token.EQL && strings.HasSuffix(an.CalleeOf(call).FullName(), "FieldList).NumFields") {
+							if k, isC := an.ConstInt(f.Y); isC && k == 0 {
+								reviewed = true
+							}
+						}
+					}
+				}
+				c.R.Check(reviewed, top+"/writes-copied", c.ipos(mu), "reviewed writer of the copied set", "an additional writer of the copied set: declarations it marks are silently dropped from the 'remaining source' block")
 				if top == "GetPrevDecl" {
 					// the key is the returned declaration
 					ok := false
